@@ -67,6 +67,15 @@ FAULTS = {
     "undeserialisable": dict(chunks=[HITS], serde=BadSerde()),
     "bad-integer-flag": dict(chunks=[b"VALUE k 2 3 7\r\nabc\r\nEND\r\n"], serde=serde_mod.pickle_serde),
 }
+# dictionary-guided plans: every bytes literal of the client module under check (error phrases, status words, table keys - also
+# ones a change adds) is offered as the text of a CLIENT_ERROR / SERVER_ERROR line and as a bare reply line
+import ast as _ast, pymemcache.client.base as _B
+_lits = sorted({n.value for n in _ast.walk(_ast.parse(open(_B.__file__).read()))
+                if isinstance(n, _ast.Constant) and isinstance(n.value, bytes) and 2 <= len(n.value) <= 48 and not (set(n.value) & set(b"\r\n"))})
+for _l in _lits:
+    FAULTS["CLIENT_ERROR+literal %r" % _l] = dict(chunks=[b"CLIENT_ERROR " + _l + b" x\r\n"])
+    FAULTS["SERVER_ERROR+literal %r" % _l] = dict(chunks=[b"SERVER_ERROR " + _l + b"\r\n"])
+    FAULTS["literal-line %r" % _l] = dict(chunks=[_l + b" x\r\n"])
 OPS = {
     "get": lambda c: c.get("k"), "get-default-kw": lambda c: c.get("k", default="d"), "get-default-pos": lambda c: c.get("k", "d"),
     "gets": lambda c: c.gets("k"), "gets-defaults": lambda c: c.gets("k", default="d", cas_default="c"),
@@ -143,7 +152,8 @@ _rc = {}
 
 
 def replay(ob, res):
-    """Bounded replay: every read of the four client stacks under 17 fault plans with ignore_exc (the miss value is what the same
+    """Bounded replay: every read of the four client stacks under 17 fault plans + three error-reply plans per bytes literal of
+    pymemcache/client/base.py (harvested from the tree under check) with ignore_exc (the miss value is what the same
     call returns against a healthy empty server), the client reused afterwards; plus HashClient over 1..3 fake servers, one failing."""
     from pyvc import replay as rp
     if "r" not in _rc:
